@@ -344,6 +344,14 @@ pub fn run(args: &Args) -> i32 {
                 }
             }
         }
+        // the same ttl in consecutive probes (first_ttl == max_ttl: one probe per round), so that
+        // nothing carried over from the previous probe can stand in for this probe's own settings
+        for ttl in [1u8, 7, 254] {
+            let mut p = base(84.max(min), 0x44, 0x0f, ttl, 33434);
+            p.first_ttl = ttl;
+            p.rounds = 4;
+            tasks.push(Task { cell, p });
+        }
         // illegal sizes: refused, nothing sent
         for size in [0u16, 1, min - 1, 1025, 2000, 65535] {
             tasks.push(Task { cell, p: base(size, 0, 0, 3, 33434) });
@@ -389,7 +397,7 @@ pub fn run(args: &Args) -> i32 {
     rep.set("evaluations", json!(n));
     rep.set("distinct_nontrivial", json!(legal));
     rep.set("tracer_runs", json!(runs));
-    rep.set("rule", json!("56 cells; probes issued by the real strategy over a silent network (2 rounds): every packet size min..1024 (x4 tos/pattern combinations) with ttl 1..4; every ttl 1..254 x every tos 0..255 x sizes {min,84,1024}; initial sequences {0,1,255,256,0x7fff,0x8000,63999,64511}; the whole issuable sequence range (258 rounds x 254 probes from sequence 0; one cell per class in quick, all cells in thorough); thorough: every tos x 6 patterns x 6 sizes; illegal sizes {0,1,min-1,1025,2000,65535} must be refused with InvalidPacketSize and nothing sent. Each datagram decoded by the independent codec and compared with configuration and with the strategy's own probe record. distinct_nontrivial = decoded datagrams of legal configurations (all distinct: size/ttl/sequence differ)"));
+    rep.set("rule", json!("56 cells; probes issued by the real strategy over a silent network (2 rounds): every packet size min..1024 (x4 tos/pattern combinations) with ttl 1..4; every ttl 1..254 x every tos 0..255 x sizes {min,84,1024}; initial sequences {0,1,255,256,0x7fff,0x8000,63999,64511}; the whole issuable sequence range (258 rounds x 254 probes from sequence 0; one cell per class in quick, all cells in thorough); one probe per round at ttl {1,7,254} (the same ttl in consecutive probes), 4 rounds; thorough: every tos x 6 patterns x 6 sizes; illegal sizes {0,1,min-1,1025,2000,65535} must be refused with InvalidPacketSize and nothing sent. Each datagram decoded by the independent codec and compared with configuration and with the strategy's own probe record. distinct_nontrivial = decoded datagrams of legal configurations (all distinct: size/ttl/sequence differ)"));
     for s in samples {
         rep.sample(s);
     }
